@@ -1,6 +1,8 @@
 package drv
 
 import (
+	pb "github.com/google/go-tdx-guest/proto/tdx"
+	"sync"
 	"crypto/x509"
 	"errors"
 	"fmt"
@@ -85,6 +87,37 @@ func RunVerifyOnce(c *gen.Concrete, id, sub int, o map[string]any, extra Event) 
 
 // RunVerifyWith is RunVerifyOnce through a caller-supplied (re-used) Options value: its public fields are set for this
 // call, its unexported per-call state is whatever earlier calls left behind.
+// widen realises the msgWide dimension: a numeric field of the message gets bits beyond the width the wire format gives it,
+// the low bits keep the genuine value (so every signature over the serialised bytes would still hold if the value were truncated).
+func widen(m *pb.QuoteV4, c *gen.Concrete) {
+	k := uint32(1+int(c.Raw[100])) << 16
+	cd := m.GetSignedData().GetCertificationData()
+	qrcd := cd.GetQeReportCertificationData()
+	switch c.W.Get("msgWide") {
+	case "none":
+	case "version":
+		m.Header.Version += k
+	case "akType":
+		m.Header.AttestationKeyType += k
+	case "certType":
+		cd.CertificateDataType += k
+	case "pckCertType":
+		qrcd.PckCertificateChainData.CertificateDataType += k
+	case "authSize":
+		qrcd.QeAuthData.ParsedDataSize += k
+	case "isvProdId":
+		qrcd.QeReport.IsvProdId += k
+	case "isvSvn":
+		qrcd.QeReport.IsvSvn += k
+	case "isvSvnPlus65536":
+		qrcd.QeReport.IsvSvn += 1 << 16
+	default:
+		panic("bad msgWide")
+	}
+}
+
+var lastSet sync.Map // *verify.Options -> the flag settings its caller asked for last
+
 func RunVerifyWith(c *gen.Concrete, reuse *verify.Options, id, sub int, o map[string]any, extra Event) []Event {
 	c.Getter.Reset()
 	opts := VerifyOpts(c, o)
@@ -96,7 +129,18 @@ func RunVerifyWith(c *gen.Concrete, reuse *verify.Options, id, sub int, o map[st
 		return []Event{call, {"ev": "Return", "verdict": "reject", "err": "RootOfTrustToOptions refused the configuration"}}
 	}
 	if reuse != nil {
-		reuse.GetCollateral, reuse.CheckRevocations, reuse.Getter, reuse.TrustedRoots = opts.GetCollateral, opts.CheckRevocations, opts.Getter, opts.TrustedRoots
+		// a caller who re-uses an Options value changes only what it wants changed: a flag that keeps its value from the previous call
+		// is not assigned again (so a library call that altered it in between is not papered over)
+		prev, _ := lastSet.Load(reuse)
+		p, _ := prev.(map[string]any)
+		if p == nil || p["gc"] != o["gc"] {
+			reuse.GetCollateral = opts.GetCollateral
+		}
+		if p == nil || p["cr"] != o["cr"] {
+			reuse.CheckRevocations = opts.CheckRevocations
+		}
+		lastSet.Store(reuse, map[string]any{"gc": o["gc"], "cr": o["cr"]})
+		reuse.Getter, reuse.TrustedRoots = opts.Getter, opts.TrustedRoots
 		if o["now"] != "unset" {
 			reuse.Now = opts.Now
 		} // "unset": the caller never touches Now; whatever the library left there stays
@@ -105,6 +149,7 @@ func RunVerifyWith(c *gen.Concrete, reuse *verify.Options, id, sub int, o map[st
 	var out Outcome
 	if o["entry"] == "msg" {
 		m := MsgFromQuote(c.Q)
+		widen(m, c)
 		out = Guard(20*time.Second, func() error { return verify.TdxQuote(m, opts) })
 	} else {
 		raw := append([]byte{}, c.Raw...)
@@ -314,10 +359,20 @@ func RunHistoryCase(cs map[string]any, id int, seed int64) Result {
 			res.Skip = c.Unrealizable
 			return Result{ID: id, Skip: c.Unrealizable}
 		}
-		o := map[string]any{"gc": step["gc"], "cr": step["cr"], "now": "set", "entry": "msg"}
+		entry, _ := step["entry"].(string)
+		if entry == "" {
+			entry = "msg"
+		}
+		o := map[string]any{"gc": step["gc"], "cr": step["cr"], "now": "set", "entry": entry}
 		evs := RunVerifyWith(c, shared, id, i, o, Event{"wid": step["wid"], "shared": cs["shared"]})
 		evs[0]["input"] = cs
 		res.Events = append(res.Events, evs...)
+		if i == 0 && cs["mid"] == "levels" && shared != nil {
+			// the reporting call between the two verifications, through the same Options value; what it returns is not judged here
+			// (C04 / TcbLevels judge it), only that it leaves the options as the caller set them
+			m := MsgFromQuote(c.Q)
+			Guard(20*time.Second, func() error { _, _, err := verify.SupportedTcbLevelsFromCollateral(m, shared); return err })
+		}
 	}
 	return res
 }
@@ -361,12 +416,17 @@ func runStaleClockCase(cs map[string]any, id int, seed int64) Result {
 		shared = &verify.Options{}
 	}
 	o := map[string]any{"gc": false, "cr": false, "now": "unset", "entry": "msg"}
-	evs := RunVerifyWith(c, shared, id, 0, o, Event{"wid": "T", "shared": cs["shared"], "input": cs})
-	res.Events = append(res.Events, evs...)
+	if cs["firstFails"] == true {
+		// the first call asks for collateral and fails while fetching it (the TCB Info response has no issuer-chain header)
+		c1 := gen.Build(gen.World{"tcbHdr": "missing"}, gen.Params{Seed: seed*31 + int64(id), WallNow: true, LeafExpiresIn: 2 * time.Second})
+		o1 := map[string]any{"gc": true, "cr": false, "now": "unset", "entry": "msg"}
+		res.Events = append(res.Events, RunVerifyWith(c1, shared, id, 0, o1, Event{"wid": "W-fetch-fails", "shared": cs["shared"], "input": cs})...)
+	} else {
+		res.Events = append(res.Events, RunVerifyWith(c, shared, id, 0, o, Event{"wid": "T", "shared": cs["shared"], "input": cs})...)
+	}
 	time.Sleep(3500 * time.Millisecond)
 	c.W = gen.World{"time": "leaf_after"}
-	evs = RunVerifyWith(c, shared, id, 1, o, Event{"wid": "T-later", "shared": cs["shared"], "input": cs})
-	res.Events = append(res.Events, evs...)
+	res.Events = append(res.Events, RunVerifyWith(c, shared, id, 1, o, Event{"wid": "T-later", "shared": cs["shared"], "input": cs})...)
 	return res
 }
 
